@@ -68,6 +68,8 @@ pub struct Cfg {
     pub wall_cap: Duration,
     pub det_every: u64,
     pub max_violations: usize,
+    /// keys of known findings of this property: such violations are recorded but do not stop the exploration
+    pub known_keys: Vec<String>,
     /// Labels whose non-default choices do not count as deviations (enumerated exhaustively).
     pub free_labels: Vec<&'static str>,
 }
@@ -84,6 +86,7 @@ impl Cfg {
             wall_cap: Duration::from_secs(3600),
             det_every: 997,
             max_violations: 3,
+            known_keys: vec![],
             free_labels: vec![],
         }
     }
@@ -357,7 +360,8 @@ pub fn explore<F: Fn(&RunCtx) -> RunOut + Sync>(cfg: &Cfg, f: F) -> Stats {
                                         if !l.violations.iter().any(|(x, _, _)| x.key == v.key) {
                                             l.violations.push((v, ch.points.clone(), tr2));
                                         }
-                                        if l.violations.len() >= cfg.max_violations {
+                                        let unknown = l.violations.iter().filter(|(x, _, _)| !cfg.known_keys.iter().any(|k| x.key.contains(k.as_str()))).count();
+                                        if unknown >= cfg.max_violations {
                                             shared.stop.store(true, Ordering::Relaxed);
                                         }
                                     }
